@@ -442,6 +442,18 @@ def evGithubFailed (st : State) : State := { st with githubChanged := true }
 /-- the same step BEFORE commit 9f64769b0: the flag stayed cleared -/
 def evGithubFailedOld (st : State) : State := { st with githubChanged := false }
 
+/-- the GitHub refresh fails at the GraphQL query of the `n`-th listed PR (`pr._update_github(gh)` raises `gidgethub.HTTPException`):
+the target sha and the PR list (`update_from_gh_json` / `from_gh_json`, `self.prs = new_prs`) have been taken over, the first `n`
+PRs have their review decision / statuses refreshed, the others keep what CI knew; the exception aborts the pass and the
+`except BaseException` around `_update_github` sets `github_changed` again -/
+def evGithubPartial (st : State) (snap : Snapshot) (n : Nat) : State :=
+  let shaCh := st.sha != some snap.targetSha
+  let r1 := refreshPRs st.prs snap.prs
+  let r2 := updateGithubAll (r1.1.take n) (snap.prs.take n)
+  { st with githubChanged := true, sha := some snap.targetSha, prs := r2.1 ++ r1.1.drop n,
+            stateChanged := st.stateChanged || shaCh || r1.2.1 || r2.2,
+            batchChanged := st.batchChanged || r1.2.2 }
+
 /-- the batch refresh fails at its first request (`batch_client.list_batches(…)` of the first PR raises): the pass of `_update` is
 aborted by the exception; `batch_changed` was already cleared (nothing restores it), no PR has been touched -/
 def evBatchFailed (st : State) : State := { st with batchChanged := false }
@@ -450,6 +462,7 @@ inductive Event where
   | flag (e : Entry)
   | batchFailed
   | githubFailed
+  | githubPartial (snap : Snapshot) (n : Nat)
   | github (snap : Snapshot)
   | batch
   | heal (a : Answers)
@@ -460,6 +473,7 @@ def step (fix : Bool) (st : State) : Event → State × List Out
   | .flag e => (evFlag st e, [])
   | .batchFailed => (evBatchFailed st, [])
   | .githubFailed => (evGithubFailed st, [])
+  | .githubPartial s n => (evGithubPartial st s n, [])
   | .github s => (evGithub st s, [])
   | .batch => (evBatch fix st, [])
   | .heal a => evHeal st a
